@@ -2,7 +2,7 @@ INIT Init
 NEXT Next
 CONSTANTS
   MaxScen = 4
-  FullUpTo = 3
+  FullUpTo = 2
   EmitAllUpTo = 2
   EmitMod = 53
 INVARIANT ClausesHold
